@@ -659,6 +659,10 @@ def run(ctx, facts):
                     "and the table can never grow again", floor=3)
     from .rules_c11 import rule_d4
     rule_d4(ctx, facts, rule="Z11")
+    ctx.rule("Z12", "the threshold published after a resize (and after every table allocation) is exactly L - floor(L/4) of the new length (rule K2 of C14)", floor=3)
+    from .rules_c14 import rule_k2
+    from .rules_c03 import relabelled
+    relabelled(ctx, facts, rule_k2, "K2", "Z12", only_what="size_ctl threshold")
     ctx.rule("Z9", "the elected finisher sweeps the whole old table (i := len, then downwards) before publishing", floor=1)
     rule_z9(ctx, facts)
     ctx.rule("Z1", "single finisher elected by the last sc-1 CAS; publication block gated, ordered and complete", floor=2)
